@@ -127,6 +127,19 @@ class M(Model):
         if abs(float(ts2.reward) - want) > 1e-5:
             out.append(("invalid-move reward is not (tiles cleaned by the other agents - penalty)",
                         f"agent {k}: reward={float(ts2.reward)} expected={want}"))
+        # nothing is cleaned on behalf of the offender: the only tiles that may change are the ones
+        # the other (legally moving) agents arrive on
+        g, g2 = np.asarray(s.grid), np.asarray(s2.grid)
+        if g.shape == g2.shape:
+            arrivals = set()
+            for j in others:
+                t = self._target(s, j, np.asarray(a).reshape(-1)[j])
+                if self._legal1(g, *t):
+                    arrivals.add(t)
+            stray = [tuple(x) for x in np.argwhere(g != g2).tolist() if tuple(x) not in arrivals]
+            if stray:
+                out.append(("grid changed on an invalid move beyond the other agents' arrivals",
+                            f"agent {k}: cells {stray[:3]}"))
         return out
 
     # ------------------------------------------------------------------ C07
